@@ -170,7 +170,9 @@ def run(prog, ctx):
             # nested under loops over both inputs: tolerated only when the store is followed by an exit of the inner loop
             ihb = cfg.loop_header(inner)
             sb = cfg.block_of(st)
-            again = any(s2 == ihb for (bb, ii, s2) in cfg.edges() if bb in cfg.reachable(sb, avoid_blocks=[ihb]))
+            inl = cfg.natural_loop(ihb)
+            inside = cfg.reachable(sb, avoid_blocks=[ihb] + [x.id for x in cfg.blocks.values() if x.id not in inl])
+            again = any(s2 == ihb for (bb, ii, s2) in cfg.edges() if bb in inside)      # a way back to the inner loop's next round
             if again:
                 ctx.fail("M4", inst, st.where,
                          "the store is nested under the loop over the %s AND the loop over the %s with no once-only exit: it can run "
@@ -275,7 +277,7 @@ def run(prog, ctx):
                 ctx.fail("M4", inst, c.where, "overlapping ranges moved with memcpy", key="memmove-overlap:%s" % h.name)
             else:
                 ctx.inconclusive("M4", inst, c.where, "block move inside the output array not of the recognised insertion form")
-    ctx.floor("C03 output store sites", len(sites), 2)
+    ctx.floor("C03 output store sites", len(sites), 1)
     # ---- M5 guarded E-k ------------------------------------------------------------------------------------
     from rules import common
     n5 = 0
